@@ -67,16 +67,26 @@ def _copy_of_param(f, l, depth=0):
 
 
 class EntryInfo:
-    """Facts about the analysis entry shared by R3a/R3b/R3c/R3e."""
+    """Facts about the analysis entry shared by R3a/R3b/R3c/R3e.  All CFG reasoning is done on the *inlined view* of the
+    entry (local non-recursive helpers spliced in), so extracting part of the entry into a helper changes nothing."""
 
     def __init__(self, ctx):
+        from ..locks import classify_call
         self.db = db = _db(ctx)
         self.crate = ctx.bin
-        self.entry = E = db.analysis_entry()
-        if E is None:
+        self.entry = E0 = db.analysis_entry()
+        if E0 is None:
             return
+        # splice in helpers that (transitively) write database maps other than the transparent/stamped caches: these are the
+        # pieces of the entry a refactoring may have extracted; pure lookups (canonical path, line index ...) stay calls
+        from .r3d import stamped_caches
+        quiet = set(stamped_caches(db)) | {"canonical_path_cache"}
+
+        def writes_index(g):
+            return any(mode == "X" and ident.startswith("dashmap|%s." % DB) and ident.split(".")[-1] not in quiet
+                       for (ident, mode) in db.lm.acq.get(g.id, ()))
+        self.view = E = ctx.inl(E0, pred=writes_index, tag="entry")
         self.parse_bb, self.parse_call = db.parse_call(E)
-        # successor switch on the parse result
         self.ok_bb = self.err_bb = None
         tgt = self.parse_call["target"]
         t = E.blocks[tgt]["t"] if tgt is not None else None
@@ -86,32 +96,52 @@ class EntryInfo:
                     self.ok_bb = b
                 elif val == 1:
                     self.err_bb = b
-        # maps receiving appends (entry()-style) in code reachable from the entry
-        reach = db.cg.reach([E.id])
+        reach = db.cg.reach([E0.id])
         self.reach = reach
         self.app = defaultdict(list)  # map -> [append op]
         for op in db.append_ops():
             if op.fn.id in reach:
                 self.app[op.ident.split(".")[-1]].append(op)
-        # per call site of the entry: which maps it may append to / write
-        self.site_appends = defaultdict(set)  # bb -> {map}
-        for bb, t, via in db.cg.callees(E.id):
-            sub = db.cg.reach([t])
-            for m, ops in self.app.items():
-                if any(op.fn.id in sub for op in ops):
-                    self.site_appends[bb].add(m)
-        for m, ops in self.app.items():
-            for op in ops:
-                if op.fn.id == E.id:
-                    self.site_appends[op.bb].add(m)
-        # clearing sites in the entry: bb -> {map}
-        self.site_clears = defaultdict(set)
-        for op in db.fn_ops(E.id):
-            if op.family == "dashmap" and op.method == "remove" and op.ident.startswith("dashmap|%s." % DB):
-                m = op.ident.split(".")[-1]
-                if len(op.call["args"]) > 1 and self._is_canonical(E, op.call["args"][1]):
-                    self.site_clears[op.bb].add(m)
+        # lock operations visible in the inlined view: bb -> (map, method, mode, call)
+        self.view_ops = {}
         for bb, c in E.calls():
+            k = classify_call(c)
+            if k is None or k[0] != "dashmap" or not c["args"]:
+                continue
+            ids, why = db.lm.identity(E, c["args"][0])
+            if len(ids) == 1 and next(iter(ids)).startswith(DB + "."):
+                self.view_ops[bb] = (next(iter(ids)).split(".")[-1], k[1], k[2], c)
+        # per call site of the view: which maps it may append to
+        self.site_appends = defaultdict(set)
+        self.site_writes = defaultdict(set)
+        for bb, c in E.calls():
+            if bb in self.view_ops:
+                m, meth, mode, _c = self.view_ops[bb]
+                if meth in ("entry", "try_entry"):
+                    self.site_appends[bb].add(m)
+                if mode == "X":
+                    self.site_writes[bb].add(m)
+                continue
+            targets = []
+            if c.get("res_local") and c.get("res") in self.crate.fns:
+                targets.append(c["res"])
+            targets += [cid for cid, loc in c.get("clos", []) if loc and cid in self.crate.fns]
+            for tid in targets:
+                sub = db.cg.reach([tid])
+                for m, ops in self.app.items():
+                    if any(op.fn.id in sub for op in ops):
+                        self.site_appends[bb].add(m)
+                for (ident, mode) in db.lm.acq.get(tid, ()):
+                    if mode == "X" and ident.startswith("dashmap|%s." % DB):
+                        self.site_writes[bb].add(ident.split(".")[-1])
+        # clearing sites in the view: bb -> {map}
+        self.site_clears = defaultdict(set)
+        for bb, (m, meth, mode, c) in self.view_ops.items():
+            if meth == "remove" and len(c["args"]) > 1 and self._is_canonical(E, c["args"][1]):
+                self.site_clears[bb].add(m)
+        for bb, c in E.calls():
+            if bb in self.view_ops:
+                continue
             if c.get("res_local") and c.get("res") in self.crate.fns:
                 g = self.crate.fns[c["res"]]
                 for m in db.maps:
@@ -121,10 +151,24 @@ class EntryInfo:
                     kind, pidx = k
                     if pidx - 1 < len(c["args"]) and self._is_canonical(E, c["args"][pidx - 1]):
                         self.site_clears[bb].add(m)
+        # helpers that were spliced into the view: their by-file clearing summary counts at the block of the original call
+        for bb, gid, c in E.inlined_calls:
+            g = self.crate.fns[gid]
+            for m in db.maps:
+                k = db.clears_by_file(g, m)
+                if k is None:
+                    continue
+                kind, pidx = k
+                if pidx - 1 < len(c["args"]) and self._is_canonical(E, c["args"][pidx - 1]):
+                    self.site_clears[bb].add(m)
 
     def _is_canonical(self, E, op):
+        """the operand is the (canonical) path of the file being analysed: a canonicalisation result computed in the entry,
+        or the entry's own path parameter (canonicalised by the wrappers)"""
         o = self.db.origins.of_operand(E, op)
-        return bool(o) and all(x[0] == "call" and x[1] == E.id and x[2].endswith("::get_canonical_path") and not x[3] for x in o)
+        ok = lambda x: (x[0] == "call" and (x[2].endswith("::get_canonical_path") or x[2].endswith("Path::canonicalize")) and not x[3]) \
+            or (x[0] == "param" and not x[3])
+        return bool(o) and all(ok(x) for x in o)
 
 
 def _entry(ctx):
@@ -140,7 +184,7 @@ def r3a_clean_before_append(ctx):
     if ei.entry is None:
         r.anchor_missing("analysis entry", "no unique function that calls rustpython_parser::parse and stores file_cache")
         return r
-    E = ei.entry
+    E = ei.view
     dom = E.dominators()
     r.counts["append_maps"] = ",".join(sorted(ei.app))
     cond = {}
@@ -149,7 +193,7 @@ def r3a_clean_before_append(ctx):
         clear_bbs = [bb for bb, ms in ei.site_clears.items() if m in ms]
         app_bbs = sorted(bb for bb, ms in ei.site_appends.items() if m in ms)
         for abb in app_bbs:
-            key = "R3a|%s|%s" % (E.id, m)
+            key = "R3a|%s|%s" % (ei.entry.id, m)
             if any(cb in dom.get(abb, set()) and cb != abb for cb in clear_bbs):
                 r.ok(sample={"map": m, "append_site": ctx.bin.span_str(E.blocks[abb]["t"][1]["span"]), "cleared": "unconditionally"})
                 continue
@@ -162,7 +206,7 @@ def r3a_clean_before_append(ctx):
                     if rk in REVIEWED:
                         r.review(rk, REVIEWED[rk])
                     else:
-                        r.violate("R3a|%s|%s|conditional" % (E.id, m),
+                        r.violate("R3a|%s|%s|conditional" % (ei.entry.id, m),
                                   "map `%s` is cleared only when parameter `%s` is true: the non-cleaning analysis appends to "
                                   "it a second time when the file was analysed before (document opened before the scan reaches "
                                   "it, or a second scan)" % (m, E.local_name(p)))
@@ -186,28 +230,19 @@ def r3b_failure_path_readonly(ctx):
     if ei.entry is None:
         r.anchor_missing("analysis entry", "not found")
         return r
-    E = ei.entry
+    E = ei.view
     if ei.ok_bb is None or ei.err_bb is None:
         r.anchor_missing("parse result switch", "the Result of rustpython_parser::parse is not matched by a switch directly after the call")
         return r
     dom = E.dominators()
     app_maps = set(ei.app)
-    db = ei.db
     n = 0
     for bb, c in E.calls():
-        writes = set()
-        op = db.lm.op_at.get((E.id, bb))
-        if op is not None and op.mode == "X" and op.ident.split(".")[-1] in app_maps:
-            writes.add(op.ident.split(".")[-1])
-        for b2, t, via in db.cg.callees(E.id):
-            if b2 == bb:
-                for (ident, mode) in db.lm.acq.get(t, ()):
-                    if mode == "X" and ident.split(".")[-1] in app_maps and ident.startswith("dashmap|%s." % DB):
-                        writes.add(ident.split(".")[-1])
+        writes = ei.site_writes.get(bb, set()) & app_maps
         if not writes:
             continue
         n += 1
-        key = "R3b|%s|%s|%s" % (E.id, (c.get("res") or "?").split("::")[-1], ",".join(sorted(writes)))
+        key = "R3b|%s|%s|%s" % (ei.entry.id, (c.get("res") or "?").split("::")[-1], ",".join(sorted(writes)))
         if ei.ok_bb in dom.get(bb, set()):
             r.ok(sample={"write_site": ctx.bin.span_str(c["span"]), "maps": sorted(writes)})
         else:
